@@ -4,7 +4,7 @@
 import sys, os, shutil, json, subprocess, re
 prop, n = sys.argv[1], sys.argv[2]
 rnd = sys.argv[3] if len(sys.argv) > 3 else ""          # optional round tag, e.g. r2 (worktree /tmp/w2-<PROP>)
-wt = f"/tmp/w2-{prop}" if rnd else f"/tmp/wt-{prop}"
+wt = f"/tmp/w{rnd[1:]}-{prop}" if rnd else f"/tmp/wt-{prop}"   # r2 -> /tmp/w2-<PROP>, r3 -> /tmp/w3-<PROP>
 dst = f"/verif/seeded/{prop}-{rnd}-{n}" if rnd else f"/verif/seeded/{prop}-{n}"
 os.makedirs(dst, exist_ok=True)
 shutil.copy(f"{wt}/mutant/patch{n}.diff", f"{dst}/patch.diff")
